@@ -107,9 +107,99 @@ func (t *byteTracer) trace(v ssa.Value, depth int, seen map[ssa.Value]bool) []or
 			}
 		}
 	case *ssa.Alloc:
+		// &io.LimitedReader{R: r, N: n}: the reader form of io.LimitReader
+		if isNamedPtr(x.Type(), "io", "LimitedReader") && x.Referrers() != nil {
+			var out []origin
+			for _, ref := range *x.Referrers() {
+				fa, ok := ref.(*ssa.FieldAddr)
+				if !ok || eng.FieldOfAddr(fa) == nil || eng.FieldOfAddr(fa).Name() != "R" {
+					continue
+				}
+				for _, r2 := range *fa.Referrers() {
+					if st, ok := r2.(*ssa.Store); ok && st.Addr == ssa.Value(fa) {
+						t.gated = append(t.gated, p.InstrPos(st))
+						out = append(out, t.trace(st.Val, depth+1, seen)...)
+					}
+				}
+			}
+			if len(out) > 0 {
+				return out
+			}
+		}
+		if isNamedPtr(x.Type(), "bytes", "Buffer") {
+			return t.bufferContent(x, depth, seen)
+		}
 		return []origin{{"alloc", "", x}}
+	case *ssa.TypeAssert:
+		// a buffer taken from a sync.Pool
+		if isNamedPtr(x.AssertedType, "bytes", "Buffer") {
+			if call, ok := x.X.(*ssa.Call); ok && eng.CalleeName(call.Common()) == "(*sync.Pool).Get" {
+				return t.bufferContent(x, depth, seen)
+			}
+		}
 	}
 	return []origin{{"unknown", fmt.Sprintf("%T %s at %s", v, v.String(), valuePos(p, v)), v}}
+}
+
+func isNamedPtr(t types.Type, pkg, name string) bool {
+	pt, ok := t.(*types.Pointer)
+	if !ok {
+		return false
+	}
+	n, ok := pt.Elem().(*types.Named)
+	return ok && n.Obj().Pkg() != nil && n.Obj().Pkg().Path() == pkg && n.Obj().Name() == name
+}
+
+// bufferContent: the bytes a *bytes.Buffer value holds are what was fed into it. A buffer
+// that is handed (back) to a sync.Pool in the same function is shared: bytes that alias it
+// (Buffer.Bytes()) are overwritten by whoever draws the buffer next.
+func (t *byteTracer) bufferContent(b ssa.Value, depth int, seen map[ssa.Value]bool) []origin {
+	p := t.c.P
+	var out []origin
+	if b.Referrers() == nil {
+		return []origin{{"unknown", "buffer never filled", b}}
+	}
+	fed := 0
+	refs := append([]ssa.Instruction(nil), *b.Referrers()...)
+	for _, ref := range *b.Referrers() {
+		if mi, ok := ref.(*ssa.MakeInterface); ok && mi.Referrers() != nil {
+			refs = append(refs, *mi.Referrers()...)
+		}
+	}
+	for _, ref := range refs {
+		var cc *ssa.CallCommon
+		switch x := ref.(type) {
+		case *ssa.Call:
+			cc = x.Common()
+		case *ssa.Defer:
+			cc = x.Common()
+		default:
+			continue
+		}
+		name := eng.CalleeName(cc)
+		switch name {
+		case "(*bytes.Buffer).ReadFrom", "(*bytes.Buffer).Write", "(*bytes.Buffer).WriteString":
+			if len(cc.Args) == 2 && cc.Args[0] == b {
+				fed++
+				out = append(out, t.trace(cc.Args[1], depth+1, seen)...)
+			}
+		case "io.Copy":
+			if len(cc.Args) == 2 && eng.Unwrap(cc.Args[0]) == b {
+				fed++
+				out = append(out, t.trace(cc.Args[1], depth+1, seen)...)
+			}
+		case "(*sync.Pool).Put":
+			for _, a := range cc.Args[1:] {
+				if eng.Unwrap(a) == b {
+					out = append(out, origin{"lossy", "the bytes alias a buffer that is handed back to a sync.Pool at " + p.InstrPos(ref) + " while they are still in use: another session draws the buffer and overwrites them", b})
+				}
+			}
+		}
+	}
+	if fed == 0 {
+		out = append(out, origin{"unknown", "buffer never filled", b})
+	}
+	return out
 }
 
 func valuePos(p *eng.Prog, v ssa.Value) string {
@@ -122,6 +212,18 @@ func valuePos(p *eng.Prog, v ssa.Value) string {
 func (t *byteTracer) traceCall(call *ssa.Call, idx int, depth int, seen map[ssa.Value]bool) []origin {
 	p := t.c.P
 	name := eng.CalleeName(call.Common())
+	// copies: the result no longer aliases its operand
+	if name == "bytes.Clone" || name == "slices.Clone" || name == "builtin.append" && len(call.Call.Args) == 2 && (eng.IsNilConst(call.Call.Args[0]) || isFreshEmptySlice(call.Call.Args[0])) {
+		src := call.Call.Args[len(call.Call.Args)-1]
+		var out []origin
+		for _, o := range t.trace(src, depth+1, seen) {
+			if o.kind == "lossy" && strings.HasPrefix(o.what, "the bytes alias a buffer") {
+				continue
+			}
+			out = append(out, o)
+		}
+		return out
+	}
 	if t.source[name] {
 		return []origin{{"source", name, call}}
 	}
@@ -464,7 +566,7 @@ func (c *Ctx) c02Stores() {
 		// Size() = len(source)
 		okSize := false
 		for _, ret := range successReturns(memSize) {
-			if x := eng.LenOf(ret.Results[0]); x != nil && eng.SameField(eng.LoadedField(x), fSource) {
+			if x := eng.LenOf(eng.ReturnResults(ret)[0]); x != nil && eng.SameField(eng.LoadedField(x), fSource) {
 				okSize = true
 			}
 		}
@@ -473,7 +575,7 @@ func (c *Ctx) c02Stores() {
 		okSrc := false
 		for _, ret := range successReturns(memSrc) {
 			tr := newByteTracer(c)
-			os := tr.trace(ret.Results[0], 0, map[ssa.Value]bool{})
+			os := tr.trace(eng.ReturnResults(ret)[0], 0, map[ssa.Value]bool{})
 			if len(os) == 1 && os[0].kind == "field" && os[0].what == "source" {
 				okSrc = true
 			}
@@ -594,7 +696,7 @@ func (c *Ctx) c02Stores() {
 	}
 	okFS := false
 	for _, ret := range successReturns(fileSize) {
-		if eng.SameField(eng.LoadedField(ret.Results[0]), fSize) {
+		if eng.SameField(eng.LoadedField(eng.ReturnResults(ret)[0]), fSize) {
 			okFS = true
 		}
 	}
@@ -1220,6 +1322,20 @@ func derivesFromScannerText(v ssa.Value, depth int) bool {
 			if derivesFromScannerText(e, depth+1) {
 				return true
 			}
+		}
+	}
+	return false
+}
+
+// isFreshEmptySlice: make([]byte, 0, …) or []byte{}.
+func isFreshEmptySlice(v ssa.Value) bool {
+	switch x := v.(type) {
+	case *ssa.MakeSlice:
+		k, ok := eng.ConstInt(x.Len)
+		return ok && k == 0
+	case *ssa.Slice:
+		if al, ok := x.X.(*ssa.Alloc); ok {
+			return strings.HasPrefix(eng.ShortType(al.Type()), "*[0]")
 		}
 	}
 	return false
